@@ -137,7 +137,7 @@ impl<'a> Analyzer<'a> {
                 const_size = true;
                 for child in v {
                     let child_info = self.visit(child)?;
-                    min_size += child_info.min_size;
+                    min_size = usize::saturating_add(min_size, child_info.min_size);
                     const_size &= child_info.const_size;
                     hard |= child_info.hard;
                     children.push(child_info);
@@ -180,7 +180,7 @@ impl<'a> Analyzer<'a> {
                 ref child, lo, hi, ..
             } => {
                 let child_info = self.visit(child)?;
-                min_size = child_info.min_size * lo;
+                min_size = child_info.min_size.saturating_mul(lo);
                 const_size = child_info.const_size && lo == hi;
                 hard = child_info.hard;
                 children.push(child_info);
@@ -231,7 +231,9 @@ impl<'a> Analyzer<'a> {
 
                 // either the condition and the truth branch match, or the false branch alone
                 min_size = min(
-                    child_info_condition.min_size + child_info_truth.min_size,
+                    child_info_condition
+                        .min_size
+                        .saturating_add(child_info_truth.min_size),
                     child_info_false.min_size,
                 );
                 const_size = child_info_condition.const_size
